@@ -23,7 +23,7 @@ ASSUMPTIONS = ['reference model vt/ref.py (set or single-sequence membership ora
                'the timer callback runs in its own thread where an exception only prints a traceback: its only interaction with the search is '
                'when it fires; byte-code-level preemption inside CPython is not modelled']
 BUDGET_S = {'quick': 90, 'thorough': 600}
-STRATA = ['S1', 'S1p', 'S1x', 'S2', 'S2s', 'S4', 'S6']
+STRATA = ['S1', 'S1n', 'S1p', 'S1x', 'S2', 'S2s', 'S4', 'S6']
 QUICK_CAPS = {'S1': 320, 'S1p': 100, 'S1x': 60, 'S2': 200, 'S4': 60, 'S6': 30}
 DEV = {'quick': 1, 'thorough': 2}
 CAP = {'quick': 150, 'thorough': 3000}
